@@ -236,3 +236,6 @@ PROPS["X01"] = {
 
 PROPS["X03"] = dict(PROPS["C07"], mc_quick=[], mc_thorough=[], require_classes=[],
                     rule="the C07 driver's executions judged for the extra clause X03 (is_on_chunk_boundary semantics)")
+
+PROPS["X04"] = dict(PROPS["C02"], mc_quick=[], mc_thorough=[], require_classes=[], require_kinds=["view"],
+                    rule="the C02 driver's requests judged for the extra clause X04 (method / uri / version / headers_map of a flow in the send-request state agree with the head on the wire)")
